@@ -20,6 +20,7 @@ def claimed():
 
 import queue
 SLOTS = queue.Queue()
+SEEDDIR = 'seeded'
 # the checks are run from a snapshot of /verif's committed HEAD, so that edits made to /verif while a long
 # evaluation is running cannot be picked up half-way (an inconsistent harness would be reported as a violation)
 SNAP = '/tmp/sev_snapshot_%d' % os.getpid()
@@ -44,7 +45,7 @@ def eval_one(sid, checks, tier, jobs_each):
 
 
 def eval_in_slot(slot, sid, checks, tier, jobs_each):
-    d = os.path.join(ROOT, 'seeded', sid)
+    d = os.path.join(ROOT, SEEDDIR, sid)
     wt = f'/tmp/sev_slot{slot}_{os.getpid()}_wt'
     subprocess.run(['git', '-C', '/repo', 'worktree', 'remove', '--force', wt], capture_output=True)
     shutil.rmtree(wt, ignore_errors=True)
@@ -81,6 +82,7 @@ def eval_in_slot(slot, sid, checks, tier, jobs_each):
 
 def main():
     args = sys.argv[1:]
+    global SEEDDIR
     jobs, checks_mode, tier, sel = 4, 'own', 'quick', []
     i = 0
     while i < len(args):
@@ -90,16 +92,18 @@ def main():
             checks_mode = args[i + 1]; i += 1
         elif args[i] == '--tier':
             tier = args[i + 1]; i += 1
+        elif args[i] == '--dir':
+            SEEDDIR = args[i + 1]; i += 1
         else:
             sel.append(args[i])
         i += 1
-    ids = sorted(x for x in os.listdir(os.path.join(ROOT, 'seeded')) if os.path.isdir(os.path.join(ROOT, 'seeded', x)))
+    ids = sorted(x for x in os.listdir(os.path.join(ROOT, SEEDDIR)) if os.path.isdir(os.path.join(ROOT, SEEDDIR, x)))
     if sel:
         ids = [x for x in ids if any(x.startswith(s) for s in sel)]
     cl = claimed()
 
     def checks_for(sid):
-        own = json.load(open(os.path.join(ROOT, 'seeded', sid, 'meta.json')))['property']
+        own = json.load(open(os.path.join(ROOT, SEEDDIR, sid, 'meta.json')))['property']
         if checks_mode == 'own':
             return [own] if own in cl else []
         if checks_mode == 'all':
@@ -114,7 +118,7 @@ def main():
         futs = [ex.submit(eval_one, sid, checks_for(sid), tier, jobs_each) for sid in ids]
         for f in futs:
             sid, res = f.result()
-            out = os.path.join(ROOT, 'seeded', sid, 'detected.json')
+            out = os.path.join(ROOT, SEEDDIR, sid, 'detected.json')
             old = {}
             if os.path.exists(out):
                 try:
@@ -128,7 +132,7 @@ def main():
             json.dump(old, open(out, 'w'), indent=1)
             det = [c for c, r in old.items() if r.get('rc') == 1]
             mach = [c for c, r in old.items() if r.get('rc') == 2]
-            own = json.load(open(os.path.join(ROOT, 'seeded', sid, 'meta.json')))['property']
+            own = json.load(open(os.path.join(ROOT, SEEDDIR, sid, 'meta.json')))['property']
             print(f'{sid}: own={own} {"DETECTED" if own in det else ("own-check-not-built" if own not in cl else "MISSED")} by={det} machinery={mach} ' + (res.get(own, {}).get('first', '') if own in res else ''))
             sys.stdout.flush()
     for k in range(jobs):
